@@ -1127,7 +1127,7 @@ def syn_inline_new_helpers(S):
 
                     def is_call(n):
                         if is_method:
-                            return n.get("e") == "mcall" and n.get("m") == h["name"] and (n.get("recv") or {}).get("e") == "path" and n["recv"].get("p") == "self"
+                            return n.get("e") == "mcall" and n.get("m") == h["name"] and (n.get("recv") or {}).get("e") == "path" and re.match(r"^self_*$", n["recv"].get("p") or "") is not None
                         return n.get("e") == "call" and (n.get("f") or {}).get("e") == "path" and n["f"].get("p", "").split("::")[-1] == h["name"]
                     if any(is_call(n) for n in body_nodes):
                         continue  # recursive
